@@ -1,0 +1,105 @@
+//go:build verif
+
+package engine
+
+// bagof/3 and setof/3 (C11; setof's aggregator also C08): collectionOf's own body, its sort closure, BagOf, SetOf and
+// their aggregators, and the list reader `slice` the grouping continuation uses.
+// The grouping continuation collectionOf$2 and the per-group alternative collectionOf$2$1 already have contracts in
+// verif_contracts.go; the clauses to add there are in additions.md.
+//
+// collectionOf: vm, agg, instances, k are captured by the continuation, so they live in cells that every callee
+// without a frame havocs; `a0 == local(vm, *VM)` says "the variable vm is what is passed" and `frozen` says that the
+// variable never holds anything but the caller's argument.  template, goal and env are not captured: they are pinned
+// as values (param(2) = template, param(3) = goal, param(6) = env).  `witness` and `s` are locals assigned once and captured; they are pinned by name where they are used.
+
+//@ func collectionOf
+//@   property C11
+//@   nosafety
+//@   frozen vm, agg, instances, k
+//@   loop 1 invariant true
+//@   loop 2 invariant true
+//@   bind fvs = newFreeVariablesSet#1
+//@   bind mk, merr = makeSlice#1
+//@   bind g = iteratedGoalTerm#1
+//@   bind ierr = (*ListIterator).Err#1
+//@   bind fa = FindAll#1
+//@   at-call newFreeVariablesSet requires[the-free-variables-of-the-goal-with-respect-to-the-template-under-the-caller-s-bindings] a0 == param(3) && a1 == param(2) && a2 == param(6)
+//@   at-call append requires[each-witness-variable-is-a-free-variable-of-the-goal] len(a1) == 1 && a1[0] is Variable && (fvs == nil || has(fvs, a1[0] as Variable))
+//@   at-call tuple requires[the-witness-is-made-of-the-variables-collected] a0 == w
+//@   at-call iteratedGoalTerm requires[the-goal-proper-is-what-is-under-the-caret-quantifiers-under-the-caller-s-bindings] a0 == param(3) && a1 == param(6)
+//@   at-store ListIterator.List requires[the-result-argument-is-checked] v == local(instances, Term)
+//@   at-store ListIterator.Env requires[under-the-caller-s-bindings] v == param(6)
+//@   at-store ListIterator.AllowPartial requires[a-partial-list-is-accepted] v
+//@   at-call FindAll requires[findall-runs-in-the-caller-s-machine-and-environment] a0 == local(vm, *VM) && a5 == param(6)
+//@   at-call FindAll requires[findall-collects-witness-plus-template-pairs] a1 is *compound && (a1 as *compound).functor == atomPlus && len((a1 as *compound).args) == 2 &&
+//@       (a1 as *compound).args[0] == witness && (a1 as *compound).args[1] == param(2)
+//@   at-call FindAll requires[of-the-goal-proper] a2 == g
+//@   at-call NewVariable requires[a-new-variable-is-made-to-receive-the-solutions] true
+//@   at-call FindAll requires[into-the-new-variable] a3 == s
+//@   bind bad = Error#2
+//@   at-call Error#2 requires[a-result-that-cannot-be-a-list-is-reported-as-the-error-the-check-found] called(ierr) && ierr != nil && a0 == ierr
+//@   at-call FindAll requires[solutions-are-computed-only-after-the-result-argument-passed-the-check] called(ierr) && ierr == nil
+//@   ensures[a-result-that-cannot-be-a-list-is-an-error] called(ierr) && ierr != nil ==> called(bad) && result == bad
+//@   ensures[otherwise-the-answer-is-that-of-findall-with-the-grouping-continuation] called(ierr) && ierr == nil ==> called(fa) && result == fa
+//@   bind re = resourceError#1
+//@   at-call resourceError requires[no-room-for-the-witness-is-a-resource-error-for-memory] merr != nil && a0 == resourceMemory && a1 == param(6)
+//@   at-call Error#1 requires[which-is-the-error-raised] called(re) && a0 is Exception && (a0 as Exception) == re
+//@   ensures[no-room-for-the-witness-is-an-error-and-no-solution-is-computed] merr != nil ==> !called(fa)
+
+// the order of the witness variables: any fixed order would do for C11; the pinned code sorts by variable number
+//@ func collectionOf$1
+//@   property C11
+//@   nosafety
+//@   ensures[the-witness-variables-are-ordered-by-variable-number] result <==> (w[param(0)] as Variable) < (w[param(1)] as Variable)
+
+// bagof/3: the aggregator is List(...) of the group's instances as they are (solution order, duplicates kept).
+// Which function value is passed as the aggregator cannot be named in a clause (a function literal has no name in the
+// contract language); it is pinned indirectly: BagOf$1 / SetOf$1 must exist with these bodies, and BagOf / SetOf
+// contain no other function value.
+//@ func BagOf
+//@   property C11
+//@   nosafety
+//@   bind c = collectionOf#1
+//@   at-call collectionOf requires[bagof-is-the-collection-of-the-caller-s-template-goal-and-result-for-the-caller-s-continuation-and-bindings] a0 == param(0) && a1 != nil && a2 == param(1) && a3 == param(2) && a4 == param(3) && a5 == param(4) && a6 == param(5)
+//@   ensures[the-answer-is-that-of-the-collection] called(c) && result == c
+
+//@ func BagOf$1
+//@   property C11
+//@   nosafety
+//@   bind lst = List#1
+//@   at-call List requires[the-instances-of-the-group-as-they-are] a0 == param(0)
+//@   ensures[the-list-of-the-instances-of-the-group] called(lst) && result == lst
+//@   ensures[in-solution-order-with-duplicates] len(param(0)) > 0 ==> result is list && (result as list) == param(0)
+
+// setof/3: the aggregator is env.set(...) (sort/2's sort + dedupe, verified under C08) of the group's instances under
+// the bindings of the group
+//@ func SetOf
+//@   property C11 C08
+//@   nosafety
+//@   bind c = collectionOf#1
+//@   at-call collectionOf requires[setof-is-the-collection-of-the-caller-s-template-goal-and-result-for-the-caller-s-continuation-and-bindings] a0 == param(0) && a1 != nil && a2 == param(1) && a3 == param(2) && a4 == param(3) && a5 == param(4) && a6 == param(5)
+//@   ensures[the-answer-is-that-of-the-collection] called(c) && result == c
+
+//@ func SetOf$1
+//@   property C11 C08
+//@   nosafety
+//@   bind st = (*Env).set#1
+//@   at-call (*Env).set requires[the-instances-of-the-group-sorted-and-without-duplicates-under-the-bindings-of-the-group] a0 == param(1) && a1 == param(0)
+//@   ensures[the-sorted-duplicate-free-list-of-the-instances-of-the-group] called(st) && result == st
+
+// slice: how the grouping continuation (and =../2) reads a list: every element, in list order, dereferenced
+//@ func slice
+//@   property C11
+//@   nosafety
+//@   loop 1 invariant true
+//@   bind more = (*ListIterator).Next#1
+//@   bind cur = (*ListIterator).Current#1
+//@   bind ierr = (*ListIterator).Err#1
+//@   bind grown = append#1
+//@   at-store ListIterator.List requires[the-list-given-is-read] v == param(0)
+//@   at-store ListIterator.Env requires[under-the-bindings-given] v == param(1)
+//@   at-call (*Env).Resolve requires[each-element-is-dereferenced-under-the-bindings-given] a0 == param(1) && called(cur) && a1 == cur
+//@   at-call append requires[the-elements-are-kept-in-list-order] a0 == ret && len(a1) == 1 && a1[0] == resolve(param(1), cur)
+//@   loop 1 maintains[every-element-visited-is-kept] called(grown)
+//@   ensures[the-list-is-read-to-its-end] called(more) && !more
+//@   ensures[what-stopped-the-reading-is-reported] called(ierr) && result1 == ierr
